@@ -552,6 +552,26 @@ impl CompositionGraph {
         self.imports
             .retain(|_, n| self.graph[*n].package != Some(package));
 
+        // Arguments satisfied by nodes of the package become unsatisfied again
+        let mut satisfied = Vec::new();
+        for index in self.graph.node_indices() {
+            if self.graph[index].package != Some(package) {
+                continue;
+            }
+
+            for e in self.graph.edges_directed(index, Direction::Outgoing) {
+                if let Edge::Argument(i) = e.weight() {
+                    if self.graph[e.target()].package != Some(package) {
+                        satisfied.push((e.target(), *i));
+                    }
+                }
+            }
+        }
+
+        for (target, index) in satisfied {
+            self.graph[target].remove_satisfied_arg(index);
+        }
+
         // Remove all nodes associated with the package
         self.graph
             .retain_nodes(|g, i| g[i].package != Some(package));
